@@ -7,6 +7,8 @@ package ice
 // math/big; sweep (exhaustive in the thorough tier) + rapid PBT.
 
 import (
+	"strings"
+	"net/netip"
 	"fmt"
 	"math/big"
 	"testing"
@@ -467,9 +469,27 @@ func TestVerif_C17_Foundation(t *testing.T) {
 		y := gen.Draw(rt, "y")
 		if rapid.Bool().Draw(rt, "sameTriple") {
 			y.typ, y.net, y.addr = x.typ, x.net, x.addr
+			// the same address may be written in another way (an address is not its spelling)
+			if a, err := netip.ParseAddr(y.addr); err == nil && rapid.IntRange(0, 2).Draw(rt, "otherSpelling") == 0 {
+				switch {
+				case a.Is4():
+					y.addr = "::ffff:" + y.addr
+				case rapid.Bool().Draw(rt, "expanded"):
+					y.addr = a.StringExpanded()
+				default:
+					y.addr = strings.ToUpper(y.addr)
+				}
+			}
 		}
 		cx, cy := mk(rt, x), mk(rt, y)
-		same := x.typ == y.typ && x.net == y.net && x.addr == y.addr
+		canon := func(s string) string {
+			if a, err := netip.ParseAddr(s); err == nil {
+				return a.Unmap().String()
+			}
+
+			return s
+		}
+		same := x.typ == y.typ && x.net == y.net && canon(x.addr) == canon(y.addr)
 		st.Record(vfHash(x, y), same && (x.port != y.port || x.comp != y.comp || x.tcp != y.tcp || x.rip != y.rip), fmt.Sprintf("same:%v", same), fmt.Sprintf("related-address-differs:%v", same && x.rip != y.rip && x.typ != CandidateTypeHost))
 		if st.WantSample() {
 			st.Sample(func() string { return fmt.Sprintf("%+v / %+v -> %s / %s", x, y, cx.Foundation(), cy.Foundation()) })
@@ -480,7 +500,7 @@ func TestVerif_C17_Foundation(t *testing.T) {
 		if !same && cx.Foundation() == cy.Foundation() {
 			st.Label("crc-collision-or-equal-foundation-for-different-triple")
 			// only a CRC-32 collision may explain it: recompute over a different hash to tell
-			if vfHash(x.typ, x.addr, x.net) != vfHash(y.typ, y.addr, y.net) {
+			if vfHash(x.typ, canon(x.addr), x.net) != vfHash(y.typ, canon(y.addr), y.net) {
 				// (type,address,network) differ: allowed only as a collision; for this tiny pool a
 				// collision would be astonishing, so flag it.
 				st.Fail(rt, "C17/foundation/equal-for-different-triple", "%+v vs %+v share foundation %s", x, y, cx.Foundation())
